@@ -58,7 +58,9 @@ Verdict ==
        LET c == Cmp(Ev.x1, Ev.x2) IN
          Viol("ORDER_LT", Ev.lt = Bool(c < 0) /\ Ev.gt = Bool(c > 0))
     \cup Viol("ORDER_LE", Ev.le = Bool(c <= 0) /\ Ev.ge = Bool(c >= 0))
-    \cup Viol("ORDER_EQ", Ev.eq = Bool(c = 0) /\ Ev.ne = Bool(c # 0))
+    \* == and != carry the documented tolerance: judged only for identical or well separated instants (close = 0)
+    \cup Viol("ORDER_EQ", Ev.close = 1 \/ (Ev.eq = Bool(c = 0) /\ Ev.ne = Bool(c # 0)))
+    \cup Viol("ORDER_EQ_NE_COMPLEMENT", Ev.eq + Ev.ne = 1)
   [] OTHER -> {"UNKNOWN_KIND"}
 
 Advance == IF Ev.k = "rt" /\ Ev.ok = 1 THEN [k |-> "rt", x |-> Ev.x, f |-> Ev.f, sec |-> Ev.sec]
